@@ -16,41 +16,59 @@ PROP = "C11"
 INFO = dict(
     technique="Lean 4 proof (the transcribed mean / covariance update formulas and ipca's mean, centring and "
               "mean-shift pseudo-sample reproduce the statistics of the concatenated data by induction over any list "
-              "of increments; ipca's R-matrix construction under QR/SVD contracts over Mathlib matrices) + "
-              "model/implementation correspondence on every composition of small sample sequences",
+              "of increments; ipca's R-matrix construction under QR/SVD contracts over Mathlib matrices, with no "
+              "full-rank hypothesis on the residual, as an invariant over every chain of increments; the forgetting "
+              "factor, the eps discard, both precision storages and the object-level models as coded) + "
+              "model/implementation correspondence on every composition of small sample sequences + obligations over "
+              "tables regenerated from the live signatures / call sites / dispatch on every run",
     level_text="Theorems over an executable rational model: `_increment_multivariate_gaussian_mean/_cov` give mean and "
                "np.cov (bias 0 and 1) of the concatenated data; an incremental GMRF after any list of increments holds "
-               "the count, mean and every per-edge / per-vertex covariance of the batch model, for every graph, both "
-               "edge modes and the edgeless case, hence the same precision for any block-inverse routine, "
-               "independently of the chunking; the (n, mean, scatter) statistics ipca maintains equal those of batch "
-               "PCA after any list of increments, centred and uncentred; under the sqrt/QR/SVD contracts the pair "
-               "(U, l) returned by one ipca step represents the scatter of the concatenated data, has orthonormal rows "
-               "(full-rank QR), is therefore an eigen-decomposition, and two such decompositions span the same "
-               "principal subspace.  The zero-mean branch test coded in ipca is refuted by a kernel-checked witness "
-               "and proved harmless exactly when no running mean is all-zero.  Tied to /repo by running every "
-               "composition of small sample sequences (and random ones for larger n) through the real classes, "
-               "diffing count / mean / covariance / precision against the Lean driver; an independent oracle "
-               "(incremental vs batch model of the same class, and vs the exact covariance) decides the property.",
-    level_note="Trusted: Lean kernel; axioms propext/Classical.choice/Quot.sound; Python harness; driver parser.  "
+               "the count, mean and every per-edge / per-vertex covariance of the batch model, for every graph "
+               "(antiparallel and repeated edges included), both edge modes and the edgeless case, hence the same "
+               "stored precision for any block-inverse routine and for both storages as coded (dense: off-diagonal "
+               "blocks assigned; BSR: duplicates summed - the two are shown to differ on an antiparallel pair), "
+               "independently of the chunking; GMRFModel / PCAModel on point clouds equal the vector models on the "
+               "stacked as_vector()s and mean() is the pointwise mean shape; the (n, mean, scatter) statistics ipca "
+               "maintains equal those of batch PCA after any list of increments, centred and uncentred; for any "
+               "results of sqrt / QR / SVD within their contracts and any rank of the residual (no full-rank "
+               "hypothesis: [U_a; B~] need not have orthonormal rows) the rows of U belonging to non-zero singular "
+               "values are orthonormal, and every state reachable by pca + any chain of increments (eps discard "
+               "modelled with its threshold, hypothesis: no eigenvalue in (0, eps], shown to be exactly the weakest) is "
+               "an eigen-decomposition of the batch scatter with rank-many components; two reachable states of the "
+               "same data span the same principal subspace.  The step ipca computes for a forgetting factor f is "
+               "modelled as coded (f^2 on the old scatter, f on mean / pseudo-sample / normaliser), reduces to the "
+               "no-forgetting step for f = 1 and equals the f-weighted scatter about the f-weighted mean minus "
+               "f(1-f) times the old scatter.  `l = l[l > eps]; U[:len(l)]` is proved to select exactly the rows "
+               "that passed the test because singular values arrive in descending order.  The zero-mean branch test "
+               "coded in ipca (centre=None) is refuted by a kernel-checked witness and proved harmless exactly when no "
+               "running mean is all-zero.  Tied to /repo by running every composition of small sample sequences (and "
+               "random ones for larger n) through the real classes and through menpo.math.ipca itself, diffing count / "
+               "mean / covariance / rank / both precisions / forgetting runs / kept eigenvalues against the Lean "
+               "driver; by `decide` obligations over the regenerated defaults (eps, f), the ipca call site of "
+               "increment and the GMRF routine dispatch; an independent oracle (incremental vs batch model of the same "
+               "class, and vs the exact covariance) decides the property.",
+    level_note="Trusted: Lean kernel; axioms propext/Classical.choice/Quot.sound; Python harness (incl. the table "
+               "extraction by inspect/ast and by wrapping the module-level GMRF routines); driver parser.  "
                "Contract parameters (not verified; checked numerically on every case through the certificate "
-               "U U^T = 1, U^T diag(l) U = exact covariance): np.linalg.qr, np.linalg.svd, np.sqrt, np.linalg.inv, "
-               "np.cov, np.mean.  Float rounding is absorbed by a 1e-9 relative tolerance on inputs whose "
-               "conditioning is bounded by the generator.",
+               "U U^T = 1, U^T diag(l) U = exact covariance): np.linalg.qr, np.linalg.svd (incl. descending order), "
+               "np.sqrt, np.linalg.inv, np.cov, np.mean; scipy.sparse.bsr_matrix sums duplicate blocks.  Float "
+               "rounding is absorbed by a 1e-9 relative tolerance on inputs whose conditioning is bounded by the "
+               "generator.",
     rule="a case = one data set + one way of cutting it into an initial batch and >= 1 increments + one model "
-         "configuration (PCA: centred/uncentred, vector or PointCloud backed; GMRF: graph, mode, storage, bias, "
-         "vector or PointCloud backed); distinct = distinct (data, split, configuration); non-trivial = at least one "
+         "configuration (PCA: centred/uncentred, vector or PointCloud backed, model class or menpo.math.ipca called "
+         "directly, forgetting factors; GMRF: graph, mode, storage, bias, vector or PointCloud backed, input "
+         "dtype/container); distinct = distinct (data, split, configuration); non-trivial = at least one "
          "increment and data of rank >= 2",
-    partial=["orthonormality of the rows returned by ipca is proved under the full-rank QR contract (B~ U_a^T = 0); "
-             "for a rank-deficient residual the scatter identity is still a theorem, orthonormality is decided by "
-             "the certificate check on every case",
-             "discarding eigenvalues <= eps is modelled as discarding exactly-zero eigenvalues "
-             "(representation_drop_zero); the generator keeps non-zero eigenvalues far above eps",
-             "forgetting factors other than 1 are outside the property and not modelled",
-             "sparse (BSR) storage is compared against the dense meaning of the model; duplicate-summing of BSR "
-             "triplets is C12's theorem, the generator uses simple graphs"],
+    partial=["the exact rank computed by the driver (Gaussian elimination, `rankExact`) is tied to the number of "
+             "components by correspondence; its equality with Mathlib's `Matrix.rank` is not proved",
+             "forgetting factors other than 1 are outside the property: modelled as coded and tied by "
+             "correspondence only (no oracle)",
+             "n_components truncation of the block inverses (truncated SVD) belongs to C12"],
     assumptions=["numpy/LAPACK qr, svd, inv, eigh accurate to 1e-12 relative on matrices with condition number <= 1e6"],
     design_ref="DESIGN.md section 6, C11; section 7 item 9")
 IMPORTS = ["MenpoModel.Props.C11"]
+GEN_IMPORT = "MenpoModel.GenProps.C11"
+GEN_TARGETS = ["MenpoModel.Generated.C11Live", "MenpoModel.GenProps.C11"]
 THEOREMS = [
     "MenpoModel.C11.mean_update_exact",
     "MenpoModel.C11.cov_update_exact",
@@ -58,6 +76,16 @@ THEOREMS = [
     "MenpoModel.C11.gmrf_chunking_independent",
     "MenpoModel.C11.gmrf_precision_eq_batch",
     "MenpoModel.C11.gmrf_block_cov",
+    "MenpoModel.C11.gmrf_stored_precision_eq_batch",
+    "MenpoModel.C11.dense_sparse_differ_on_antiparallel",
+    "MenpoModel.C11.dense_eq_sparse_of_simple",
+    "MenpoModel.C11.precisionStored_storage_independent",
+    "MenpoModel.C11.gmrfObj_eq_vector",
+    "MenpoModel.C11.gmrfObj_refines_batch",
+    "MenpoModel.C11.gmrfObj_mean_pointwise",
+    "MenpoModel.C11.pcaObj_refines_batch",
+    "MenpoModel.C11.fromVector_asVector",
+    "MenpoModel.C11.featVertex_asVector",
     "MenpoModel.C11.scatter_union_identity",
     "MenpoModel.C11.ipca_mean_exact",
     "MenpoModel.C11.ipca_spec_refines_batch",
@@ -67,6 +95,13 @@ THEOREMS = [
     "MenpoModel.C11.ipca_coded_centred",
     "MenpoModel.C11.ipca_coded_refuted",
     "MenpoModel.C11.pseudo_sample_gram",
+    "MenpoModel.C11.ipcaForget_one",
+    "MenpoModel.C11.pcaRunForget_one_refines_batch",
+    "MenpoModel.C11.ipcaForget_mean_weighted",
+    "MenpoModel.C11.ipcaForget_scatter_weighted",
+    "MenpoModel.C11.ipcaForget_uncentred",
+    "MenpoModel.C11.ipcaRows_eq_filter",
+    "MenpoModel.C11.ipcaKeep_eq_take",
     "MenpoModel.C11.qr_contract",
     "MenpoModel.C11.svd_contract",
     "MenpoModel.C11.ipca_scatter_exact",
@@ -76,10 +111,149 @@ THEOREMS = [
     "MenpoModel.C11.ipca_covariance_exact",
     "MenpoModel.C11.principal_subspace_unique",
     "MenpoModel.C11.ipca_step_represents",
+    "MenpoModel.C11.ipca_rows_orthonormal",
+    "MenpoModel.C11.ipca_step_repM",
+    "MenpoModel.C11.ipca_reach_represents",
+    "MenpoModel.C11.ipca_reach_subspace_unique",
+    "MenpoModel.C11.ipca_reach_card_eq_rank",
+    "MenpoModel.C11.ipca_reach_eigen",
+    "MenpoModel.C11.RepM.card_eq_rank",
+    "MenpoModel.C11.RepM.eigenvalues_unique",
+    "MenpoModel.C11.ipca_reach_eigenvalues_unique",
+    "MenpoModel.C11.kept_represents_iff",
+    "MenpoModel.C11.ipca_eps_gap_needed",
+]
+GEN_THEOREMS = [
+    "MenpoModel.GenProps.C11.eps_ok",
+    "MenpoModel.GenProps.C11.eps_nonneg",
+    "MenpoModel.GenProps.C11.no_forgetting_by_default",
+    "MenpoModel.GenProps.C11.ipcaCall_ok",
+    "MenpoModel.GenProps.C11.gmrfDispatch_ok",
+    "MenpoModel.GenProps.C11.gmrfDefaults_ok",
+    "MenpoModel.GenProps.C11.ipca_reach_represents_live",
 ]
 TOL = 1e-9
+DRIVER_SHARDS = 4
 SITE_PCA = "C11/PCA.increment"
 SITE_GMRF = "C11/GMRF.increment"
+SITE_IPCA = "C11/ipca"
+
+
+# ------------------------------------------------------------------------------- regenerated tables
+
+GMRF_ROUTINES = ["_create_sparse_precision", "_create_dense_precision", "_create_sparse_diagonal_precision",
+                 "_create_dense_diagonal_precision", "_increment_sparse_precision", "_increment_dense_precision",
+                 "_increment_sparse_diagonal_precision", "_increment_dense_diagonal_precision"]
+
+
+def live_tables():
+    """what the current tree says: defaults of ipca / increment / GMRFVectorModel, how increment calls ipca (ast of
+    the live source), and which module-level routine GMRFVectorModel.__init__ / _increment pick (measured by wrapping
+    the routines and running tiny models)"""
+    import ast
+    import inspect
+    import textwrap
+    import numpy as np
+    from menpo.math import decomposition
+    from menpo.model import pca as pca_mod, gmrf as gmrf_mod
+    from menpo.shape import UndirectedGraph
+
+    def rat(x):
+        try:
+            return F(repr(x))
+        except (ValueError, TypeError):
+            return F(-1)
+
+    t = {}
+    sig = inspect.signature(decomposition.ipca)
+    t["ipcaEps"] = rat(sig.parameters["eps"].default)
+    t["ipcaF"] = rat(sig.parameters["f"].default)
+    t["incrementF"] = rat(inspect.signature(pca_mod.PCAVectorModel.increment).parameters["forgetting_factor"].default)
+    t["incrementObjF"] = rat(inspect.signature(pca_mod.PCAModel.increment).parameters["forgetting_factor"].default)
+    tree = ast.parse(textwrap.dedent(inspect.getsource(pca_mod.PCAVectorModel.increment)))
+    calls = [n for n in ast.walk(tree) if isinstance(n, ast.Call) and getattr(n.func, "id", None) == "ipca"]
+    if len(calls) == 1:
+        # position 0 is the local name of the new data matrix (free to change); the others name model state
+        t["ipcaCall"] = ([(str(i), ast.unparse(a)) for i, a in enumerate(calls[0].args) if i > 0] +
+                         [(str(k.arg), ast.unparse(k.value)) for k in calls[0].keywords])
+    else:
+        t["ipcaCall"] = [("calls", str(len(calls)))]
+    gsig = inspect.signature(gmrf_mod.GMRFVectorModel.__init__)
+    t["gmrfDefaults"] = [(k, repr(gsig.parameters[k].default)) for k in ("mode", "n_components", "sparse", "bias", "incremental")
+                         if k in gsig.parameters]
+    # dispatch, measured
+    saved = {n: getattr(gmrf_mod, n) for n in GMRF_ROUTINES if hasattr(gmrf_mod, n)}
+    log = []
+
+    def wrap(name, fn):
+        def w(*a, **k):
+            log.append(name)
+            return fn(*a, **k)
+        return w
+
+    X = np.array([[1.0, 2.0, 0.5], [3.0, -1.0, 1.5], [-4.0, -1.0, -2.0], [2.0, 2.5, 1.0], [0.0, 3.0, 4.0], [1.0, 1.0, -2.0]])
+    disp = []
+    try:
+        for n, fn in saved.items():
+            setattr(gmrf_mod, n, wrap(n, fn))
+        for edgeless in (True, False):
+            for sparse in (True, False):
+                e = np.zeros((0, 2), dtype=int) if edgeless else np.array([[0, 1], [1, 2]])
+                g = UndirectedGraph.init_from_edges(e, 3)
+                del log[:]
+                try:
+                    m = gmrf_mod.GMRFVectorModel(X[:4].copy(), g, sparse=sparse, incremental=True)
+                    created = ",".join(log)
+                    del log[:]
+                    m.increment(X[4:].copy())
+                    incremented = ",".join(log)
+                except Exception as ex:      # noqa: BLE001 - reported through the obligation
+                    created, incremented = "raised:" + type(ex).__name__, ",".join(log)
+                disp.append((edgeless, sparse, created, incremented))
+    finally:
+        for n, fn in saved.items():
+            setattr(gmrf_mod, n, fn)
+    t["gmrfDispatch"] = disp
+    return t
+
+
+def generated_text(t):
+    def q(x):
+        return "(%d : Rat) / %d" % (x.numerator, x.denominator)
+
+    def st(x):
+        return '"%s"' % str(x).replace("\\", "\\\\").replace('"', '\\"')
+
+    def b(x):
+        return "true" if x else "false"
+
+    return ("/- REGENERATED by harness/c11.py from the live menpo code on every run: defaults of `ipca` and of the\n"
+            "   `increment` methods, the arguments `PCAVectorModel.increment` hands to `ipca` (from the ast of its source),\n"
+            "   defaults of `GMRFVectorModel.__init__`, and the module-level routine `__init__` / `_increment` were\n"
+            "   observed to call for (edgeless, sparse).  Do not edit. -/\n"
+            "namespace MenpoModel.Generated.C11\n\n"
+            "def ipcaEps : Rat := %s\ndef ipcaF : Rat := %s\ndef incrementF : Rat := %s\ndef incrementObjF : Rat := %s\n\n"
+            "def ipcaCall : List (String × String) :=\n  [%s]\n\n"
+            "def gmrfDefaults : List (String × String) :=\n  [%s]\n\n"
+            "def gmrfDispatch : List (Bool × Bool × String × String) :=\n  [%s]\n\n"
+            "end MenpoModel.Generated.C11\n" % (
+                q(t["ipcaEps"]), q(t["ipcaF"]), q(t["incrementF"]), q(t["incrementObjF"]),
+                ", ".join("(%s, %s)" % (st(a), st(v)) for a, v in t["ipcaCall"]),
+                ", ".join("(%s, %s)" % (st(a), st(v)) for a, v in t["gmrfDefaults"]),
+                ",\n   ".join("(%s, %s, %s, %s)" % (b(e), b(sp), st(c), st(i)) for e, sp, c, i in t["gmrfDispatch"])))
+
+
+def generated(ctx):
+    t = live_tables()
+    ctx.notes["live_tables"] = {k: (str(v) if isinstance(v, F) else v) for k, v in t.items()}
+    ok = common.build_generated(ctx, {"MenpoModel/Generated/C11Live.lean": generated_text(t)}, GEN_TARGETS,
+                                len(GEN_THEOREMS))
+    if not ok and ctx.broken_obligations:
+        ctx.broken_obligations[-1]["obligation"] = "MenpoModel.GenProps.C11 (eps_ok / no_forgetting_by_default / " \
+                                                   "ipcaCall_ok / gmrfDispatch_ok / gmrfDefaults_ok)"
+        ctx.broken_obligations[-1]["observed"] = ctx.notes["live_tables"]
+    return ok
+
 
 
 # ------------------------------------------------------------------------------- generators
@@ -179,6 +353,8 @@ def make_graph(rng, kind, nv):
         return [[i, (i + 1) % nv] for i in range(nv)]
     if kind in ("tree", "Tree"):
         return [[rng.randrange(i), i] for i in range(1, nv)]
+    if kind == "chain-isolated":    # the last vertex has no edge: its rows of the precision stay zero, its BSR row is empty
+        return [[i, i + 1] for i in range(nv - 2)]
     if kind == "twoway-chain":      # a directed graph given by a symmetric adjacency: every link in both directions
         return [e for i in range(nv - 1) for e in ([i, i + 1], [i + 1, i])]
     if kind == "twoway-cycle":
@@ -225,38 +401,80 @@ def gmrf_data_ok(X, split, edges, mode, k, nv, bias):
 
 # ------------------------------------------------------------------------------- implementation runners
 
-def as_pointclouds(M, k):
+def as_pointclouds(M, k, int_first=False):
+    """int_first: the first sample is stored with an integer dtype (PointCloud keeps the dtype it is given)"""
     import numpy as np
     from menpo.shape import PointCloud
-    return [PointCloud(np.array(r, dtype=float).reshape(-1, k)) for r in M]
+    out = [PointCloud(np.array(r, dtype=float).reshape(-1, k)) for r in M]
+    if int_first:
+        out[0] = PointCloud(np.array(M[0]).astype(np.int64).reshape(-1, k))
+    return out
 
 
-def run_pca_impl(chunks, centred, backing):
-    """state of the incrementally fed model and of the batch model: dicts n, mean, U, l"""
+def as_matrix_widens():
+    """does menpo.math.as_matrix keep the fractional part of a float sample that follows an integer-typed template?
+    (it allocates the matrix with the dtype of the first sample; see notes/fixes/C11-as-matrix-template-dtype.diff)"""
+    import numpy as np
+    from menpo.math import as_matrix
+    from menpo.shape import PointCloud
+    try:
+        M = as_matrix([PointCloud(np.array([[0, 1]])), PointCloud(np.array([[0.5, 1.25]]))])
+        return bool(M[1, 0] == 0.5 and M[1, 1] == 1.25)
+    except Exception:      # noqa: BLE001
+        return False
+
+
+def pca_state(m):
+    import numpy as np
+    mean = m.mean()
+    mean = mean.as_vector() if hasattr(mean, "as_vector") else mean
+    return dict(n=m.n_samples, mean=np.array(mean, dtype=float), U=np.array(m.components, dtype=float),
+                l=np.array(m.eigenvalues, dtype=float))
+
+
+def run_pca_impl(chunks, centred, backing, factors=None):
+    """state of the incrementally fed model and of the batch model: dicts n, mean, U, l.
+    backing: vector | pointcloud | pointcloud-iter (samples handed over as an iterator with n_samples)"""
     import numpy as np
     from menpo.model import PCAVectorModel, PCAModel
     X = np.vstack(chunks)
+    fs = factors or [None] * (len(chunks) - 1)
 
-    def state(m):
-        mean = m.mean()
-        mean = mean.as_vector() if hasattr(mean, "as_vector") else mean
-        return dict(n=m.n_samples, mean=np.array(mean, dtype=float), U=np.array(m.components, dtype=float),
-                    l=np.array(m.eigenvalues, dtype=float))
+    def kw(f):
+        return {} if f is None else {"forgetting_factor": f}
 
     if backing == "vector":
         inc = PCAVectorModel(chunks[0].copy(), centre=centred)
-        for c in chunks[1:]:
-            inc.increment(c.copy())
+        for c, f in zip(chunks[1:], fs):
+            inc.increment(c.copy(), **kw(f))
         bat = PCAVectorModel(X.copy(), centre=centred)
     else:
         inc = PCAModel(as_pointclouds(chunks[0], 2), centre=centred)
-        for c in chunks[1:]:
-            inc.increment(as_pointclouds(c, 2))
+        for c, f in zip(chunks[1:], fs):
+            pcs = as_pointclouds(c, 2)
+            if backing == "pointcloud-iter":
+                inc.increment(iter(pcs), n_samples=len(pcs), **kw(f))
+            else:
+                inc.increment(pcs, **kw(f))
         bat = PCAModel(as_pointclouds(X, 2), centre=centred)
-    return state(inc), state(bat)
+    return pca_state(inc), pca_state(bat)
 
 
-def run_gmrf_impl(chunks, kind, edges, nv, k, mode, sparse, bias, backing):
+def run_ipca_direct(chunks, centred, centre_arg):
+    """menpo.math.pca on the first chunk, then menpo.math.ipca itself for every further chunk"""
+    import numpy as np
+    from menpo.math import pca, ipca
+    U, l, m = pca(chunks[0].copy(), centre=centred)
+    n = chunks[0].shape[0]
+    for c in chunks[1:]:
+        U, l, m = ipca(c.copy(), U, l, n, m_a=m, centre=centre_arg)
+        n += c.shape[0]
+    return dict(n=n, mean=np.array(m, dtype=float), U=np.array(U, dtype=float), l=np.array(l, dtype=float))
+
+
+def run_gmrf_impl(chunks, kind, edges, nv, k, mode, sparse, bias, backing, variant="plain"):
+    """variant: plain | int (integer dtype data matrix) | list (every chunk handed over as a list of 1-D arrays) |
+    iter (object level: an iterator of samples together with n_samples)"""
     import numpy as np
     from menpo.model import GMRFVectorModel, GMRFModel
     X = np.vstack(chunks)
@@ -271,17 +489,29 @@ def run_gmrf_impl(chunks, kind, edges, nv, k, mode, sparse, bias, backing):
         return dict(n=m.n_samples, mean=np.array(mean, dtype=float), P=dense(m.precision),
                     covs=None if covs is None else np.array(covs, dtype=float))
 
+    def arg(c):
+        if variant == "int":
+            return np.array(c, dtype=np.int64)
+        if variant == "list":
+            return [np.array(r, dtype=float) for r in c]
+        return c.copy()
+
     kw = dict(mode=mode, sparse=sparse, bias=bias, dtype=np.float64)
     if backing == "vector":
-        inc = GMRFVectorModel(chunks[0].copy(), build_graph(kind, edges, nv), incremental=True, **kw)
+        inc = GMRFVectorModel(arg(chunks[0]), build_graph(kind, edges, nv), incremental=True, **kw)
         for c in chunks[1:]:
-            inc.increment(c.copy())
-        bat = GMRFVectorModel(X.copy(), build_graph(kind, edges, nv), incremental=False, **kw)
+            inc.increment(arg(c))
+        bat = GMRFVectorModel(arg(X), build_graph(kind, edges, nv), incremental=False, **kw)
     else:
-        inc = GMRFModel(as_pointclouds(chunks[0], k), build_graph(kind, edges, nv), incremental=True, **kw)
+        first_int = variant == "int-template"
+        inc = GMRFModel(as_pointclouds(chunks[0], k, first_int), build_graph(kind, edges, nv), incremental=True, **kw)
         for c in chunks[1:]:
-            inc.increment(as_pointclouds(c, k))
-        bat = GMRFModel(as_pointclouds(X, k), build_graph(kind, edges, nv), incremental=False, **kw)
+            pcs = as_pointclouds(c, k)
+            if variant == "iter":
+                inc.increment(iter(pcs), n_samples=len(pcs))
+            else:
+                inc.increment(pcs)
+        bat = GMRFModel(as_pointclouds(X, k, first_int), build_graph(kind, edges, nv), incremental=False, **kw)
     return state(inc), state(bat)
 
 
@@ -307,6 +537,24 @@ def pca_python(chunks, centred, backing):
             "b = PCAVectorModel(np.vstack([np.array(c) for c in chunks]), centre=%r)\n"
             "print(m.n_samples, m.mean(), m.eigenvalues)\nprint(b.n_samples, b.mean(), b.eigenvalues)\n" % (
                 [c.tolist() for c in chunks], centred, centred))
+
+
+def certificate(ctx, inc, X, centred, site, rp):
+    """against the definition, independent of batch `pca`: the returned factors are an orthonormal eigen-decomposition
+    of the exact covariance of the stacked data, with rank-many components"""
+    import numpy as np
+    m_ex, C_ex, rank = exact_cov(X, centred)
+    k = inc["U"].shape[0]
+    Ci = inc["U"].T.dot(np.diag(inc["l"])).dot(inc["U"])
+    ok = ctx.check(arr_close(inc["U"].dot(inc["U"].T), np.eye(k), 1e-8), site, "not-orthonormal",
+                   "rows of the components after the increments are not orthonormal", rp)
+    ok &= ctx.check(arr_close(Ci, C_ex, 1e-8) and k == rank, site, "covariance",
+                    "U^T diag(l) U after the increments differs from the exact covariance of the stacked data by %.2e "
+                    "(components %d, exact rank %d)" % (float(np.abs(Ci - C_ex).max()), k, rank), rp)
+    ok &= ctx.check(bool(np.all(np.diff(inc["l"]) <= 1e-9 * (1.0 + float(np.abs(inc["l"]).max() if k else 0.0)))), site,
+                    "eigenvalues-not-descending", "eigenvalues after the increments are not in descending order: %r" %
+                    inc["l"].tolist(), rp)
+    return ok
 
 
 def pca_oracle(ctx, chunks, centred, backing, rp):
@@ -343,25 +591,53 @@ def pca_oracle(ctx, chunks, centred, backing, rp):
         Pi, Pb = inc["U"].T.dot(inc["U"]), bat["U"].T.dot(bat["U"])
         ok &= ctx.check(arr_close(Pi, Pb, 1e-7), site, "subspace",
                         "projector onto the principal subspace differs from the batch model's by %.2e" % float(np.abs(Pi - Pb).max()), rp)
-    # against the definition, independent of batch `pca`: certificate of the returned factors
-    k = inc["U"].shape[0]
-    Ci = inc["U"].T.dot(np.diag(inc["l"])).dot(inc["U"])
-    ok &= ctx.check(arr_close(inc["U"].dot(inc["U"].T), np.eye(k), 1e-8), site, "not-orthonormal",
-                    "rows of the components after the increments are not orthonormal", rp)
-    ok &= ctx.check(arr_close(Ci, C_ex, 1e-8) and k == rank, site, "covariance",
-                    "U^T diag(l) U after the increments differs from the exact covariance of the stacked data by %.2e "
-                    "(components %d, exact rank %d)" % (float(np.abs(Ci - C_ex).max()), k, rank), rp)
+    certificate(ctx, inc, X, centred, site, rp)
+    return inc
+
+
+def zero_mean_prefix(chunks):
+    """is the running mean exactly zero in every feature before some increment?"""
+    import numpy as np
+    X = np.vstack(chunks)
+    lo = 0
+    for c in chunks[:-1]:
+        lo += c.shape[0]
+        if bool(np.all(X[:lo].mean(axis=0) == 0)):
+            return True
+    return False
+
+
+def ipca_oracle(ctx, chunks, centred, centre_arg, rp):
+    """menpo.math.ipca called directly.  With centre=None and an all-zero mean the documented convention is the
+    uncentred update, so the batch comparison applies only when no running mean is all-zero (or centre is given)."""
+    import numpy as np
+    site = SITE_IPCA + ("/centred" if centred else "/uncentred")
+    try:
+        inc = run_ipca_direct(chunks, centred, centre_arg)
+    except Exception as e:
+        ctx.fail(site, "raises", "pca/ipca raised %s: %s" % (type(e).__name__, str(e)[:120]), rp)
+        return None
+    X = np.vstack(chunks)
+    if centred and centre_arg is None and zero_mean_prefix(chunks):
+        ctx.count("ipca:documented-zero-mean-convention")
+        return inc
+    m_ex, _, _ = exact_cov(X, centred)
+    ctx.check(inc["n"] == X.shape[0], site, "count", "count %r" % inc["n"], rp)
+    if ctx.check(arr_close(inc["mean"], m_ex), site, "mean", "mean returned by ipca %r, mean of the stacked data %r" % (
+            inc["mean"].tolist(), m_ex.tolist()), rp):
+        certificate(ctx, inc, X, centred, site, rp)
     return inc
 
 
 def gmrf_oracle(ctx, chunks, cfg, rp):
     import numpy as np
-    kind, edges, nv, k, mode, sparse, bias, backing = cfg
+    kind, edges, nv, k, mode, sparse, bias, backing = cfg[:8]
+    variant = cfg[8] if len(cfg) > 8 else "plain"
     try:
-        inc, bat = run_gmrf_impl(chunks, kind, edges, nv, k, mode, sparse, bias, backing)
+        inc, bat = run_gmrf_impl(chunks, kind, edges, nv, k, mode, sparse, bias, backing, variant)
     except Exception as e:
         ctx.fail(SITE_GMRF, "raises", "increment/build raised %s: %s" % (type(e).__name__, str(e)[:120]), rp)
-        return None
+        return None, None
     X = np.vstack(chunks)
     ctx.check(inc["n"] == bat["n"] == X.shape[0], SITE_GMRF, "count",
               "n_samples after the increments is %r, the batch model has %r" % (inc["n"], bat["n"]), rp)
@@ -371,7 +647,7 @@ def gmrf_oracle(ctx, chunks, cfg, rp):
               "precision after the increments differs from the batch precision by %.3e (max entry %.3e)" % (
                   float(np.abs(inc["P"] - bat["P"]).max()) if inc["P"].shape == bat["P"].shape else float("nan"),
                   float(np.abs(bat["P"]).max())), rp)
-    return inc
+    return inc, bat
 
 
 # ------------------------------------------------------------------------------- cases
@@ -380,29 +656,51 @@ def wire_chunks(chunks):
     return "%d %s" % (len(chunks), " ".join(common.fmat(c.tolist()) for c in chunks))
 
 
+def wire_clouds(chunks, k):
+    """object level: every chunk is a list of point clouds (n_points x k)"""
+    out = ["%d" % len(chunks)]
+    for c in chunks:
+        out.append("%d" % c.shape[0])
+        for r in c.tolist():
+            out.append(common.fmat([r[p * k:(p + 1) * k] for p in range(len(r) // k)]))
+    return " ".join(out)
+
+
 class Run:
     def __init__(self, ctx, with_model=True):
         self.ctx, self.with_model = ctx, with_model
         self.lines, self.pending = [], {}
 
-    def ask(self, line, kind, inc, rp):
+    def ask(self, line, kind, inc, rp, **extra):
         if not self.with_model or inc is None:
             return
         cid = "q%d" % len(self.lines)
         self.lines.append("%s %s" % (cid, line))
-        self.pending[cid] = (kind, inc, rp)
+        self.pending[cid] = (kind, inc, rp, extra)
 
     def settle(self):
         import numpy as np
         if not self.lines:
             return
-        model = common.run_driver(PROP, self.lines)
-        for cid, (kind, inc, rp) in self.pending.items():
+        # a few driver processes side by side (each answers its own share of the request lines)
+        from concurrent.futures import ThreadPoolExecutor
+        shards = [self.lines[i::DRIVER_SHARDS] for i in range(DRIVER_SHARDS)]
+        shards = [sh for sh in shards if sh]
+        model = {}
+        with ThreadPoolExecutor(max_workers=len(shards)) as ex:
+            for part in ex.map(lambda sh: common.run_driver(PROP, sh), shards):
+                model.update(part)
+        for cid, (kind, inc, rp, extra) in self.pending.items():
             rep = model[cid]
             if not rep.startswith("ok "):
                 self.ctx.mismatch(kind, "model answered %r" % rep[:80], rp)
                 continue
             parts = [p.split() for p in rep[3:].split("|")]
+            if kind == "keep":
+                cnt, lm = int(parts[0][0]), np.array([float(F(x)) for x in parts[1]])
+                if cnt != inc["l"].shape[0] or not arr_close(inc["l"], lm):
+                    self.ctx.mismatch("ipca.keep", "eigenvalues kept by ipca %r, by the model %r" % (inc["l"].tolist(), lm.tolist()), rp)
+                continue
             n = int(parts[0][0])
             mean = np.array([float(F(x)) for x in parts[1]])
             d = mean.shape[0]
@@ -411,15 +709,35 @@ class Run:
                 self.ctx.mismatch(kind + ".count", "model %d vs implementation %r" % (n, inc["n"]), rp)
             if not arr_close(inc["mean"], mean):
                 self.ctx.mismatch(kind + ".mean", "model %r vs implementation %r" % (mean.tolist(), inc["mean"].tolist()), rp)
-            if kind == "pca":
+            if kind in ("pca", "ipca"):
                 Ci = inc["U"].T.dot(np.diag(inc["l"])).dot(inc["U"])
                 if not arr_close(Ci, sq, 1e-8):
-                    self.ctx.mismatch("pca.covariance", "U^T diag(l) U differs from the model covariance by %.2e" %
+                    self.ctx.mismatch(kind + ".covariance", "U^T diag(l) U differs from the model covariance by %.2e" %
                                       float(np.abs(Ci - sq).max()), rp)
+                rank = int(parts[3][0])
+                if rank != inc["U"].shape[0]:
+                    self.ctx.mismatch(kind + ".n_components", "%d components, the model scatter has exact rank %d" % (
+                        inc["U"].shape[0], rank), rp)
+            elif kind == "pcaf":
+                # guard on the exact model quantity: the non-zero part of the model spectrum must be far above eps
+                ev = np.sort(np.linalg.eigvalsh((sq + sq.T) / 2.0))[::-1]
+                kk = inc["U"].shape[0]
+                if kk == 0 or kk > d or ev[kk - 1] < 1e-5 * max(ev[0], 1.0) or (kk < d and abs(ev[kk]) > 1e-9 * max(ev[0], 1.0)):
+                    self.ctx.count("pcaf:guard-skipped")
+                    continue
+                Ci = inc["U"].T.dot(np.diag(inc["l"])).dot(inc["U"])
+                if not arr_close(Ci, sq, 1e-8):
+                    self.ctx.mismatch("pcaf.covariance", "forgetting factors %r: U^T diag(l) U differs from the model "
+                                      "covariance by %.2e" % (rp.get("factors"), float(np.abs(Ci - sq).max())), rp)
             else:
-                if not arr_close(inc["P"], sq, 1e-8):
-                    self.ctx.mismatch("gmrf.precision", "implementation precision differs from the model's by %.2e" %
-                                      float(np.abs(inc["P"] - sq).max()), rp)
+                Pm = sq if not extra.get("sparse") else np.array([float(F(x)) for x in parts[4]]).reshape(d, d)
+                if not arr_close(inc["P"], Pm, 1e-8):
+                    self.ctx.mismatch("gmrf.precision", "implementation precision (%s storage) differs from the model's by "
+                                      "%.2e" % ("sparse" if extra.get("sparse") else "dense", float(np.abs(inc["P"] - Pm).max())), rp)
+                bat = extra.get("bat")
+                if bat is not None and not arr_close(bat["P"], Pm, 1e-8):
+                    self.ctx.mismatch("gmrf.batch-precision", "batch precision (%s storage) differs from the model's by "
+                                      "%.2e" % ("sparse" if extra.get("sparse") else "dense", float(np.abs(bat["P"] - Pm).max())), rp)
                 covs = np.array([float(F(x)) for x in parts[3]])
                 if inc["covs"] is not None and not arr_close(inc["covs"].ravel(), covs, 1e-8):
                     self.ctx.mismatch("gmrf.covariances", "stored block covariances differ from the model's", rp)
@@ -438,31 +756,114 @@ def pca_case(run, X, split, centred, backing, tag):
     ctx.count("pca:%s" % tag)
     ctx.count("increments:%d" % (len(split) - 1))
     inc = pca_oracle(ctx, chunks, centred, backing, rp)
-    run.ask("pca %d spec %s" % (1 if centred else 0, wire_chunks(chunks)), "pca", inc, rp)
+    if backing == "vector":
+        run.ask("pca %d spec %s" % (1 if centred else 0, wire_chunks(chunks)), "pca", inc, rp)
+    else:
+        run.ask("pcao %d 2 %s" % (1 if centred else 0, wire_clouds(chunks, 2)), "pca", inc, rp)
+
+
+def ipca_case(run, X, split, centred, centre_arg, tag):
+    """menpo.math.ipca as a public entry point of its own"""
+    ctx = run.ctx
+    chunks = cut(X, split)
+    rp = {"model": "ipca", "centred": centred, "centre_arg": centre_arg, "split": list(split), "data": X.tolist()}
+    ctx.case(("ipca", X.tobytes(), split, centred, centre_arg), nontrivial=len(split) >= 2 and X.shape[0] >= 3)
+    ctx.count("ipca:%s:centre=%r" % ("centred" if centred else "uncentred", centre_arg))
+    ctx.count("ipca:%s" % tag)
+    inc = ipca_oracle(ctx, chunks, centred, centre_arg, rp)
+    # centre=None: the branch is inferred from the mean (`ipcaStepCoded`); centre given: the specified step
+    variant = "coded" if centre_arg is None else "spec"
+    run.ask("pca %d %s %s" % (1 if centred else 0, variant, wire_chunks(chunks)), "ipca", inc, rp)
+
+
+def forget_case(run, X, split, centred, backing, factors, tag):
+    """forgetting factors: outside the property (no oracle); the step as coded is tied to the model"""
+    ctx = run.ctx
+    if not run.with_model:
+        return
+    chunks = cut(X, split)
+    rp = {"model": "PCA-forget", "centred": centred, "backing": backing, "split": list(split), "data": X.tolist(),
+          "factors": [str(f) for f in factors]}
+    ctx.case(("pcaf", X.tobytes(), split, centred, backing, tuple(factors)), nontrivial=len(split) >= 2)
+    ctx.count("pcaf:%s:%s" % ("centred" if centred else "uncentred", backing))
+    ctx.count("pcaf:%s" % tag)
+    try:
+        inc, _ = run_pca_impl(chunks, centred, backing, [float(f) for f in factors])
+    except Exception as e:
+        ctx.mismatch("pcaf", "increment with forgetting factors %r raised %s: %s" % (
+            [str(f) for f in factors], type(e).__name__, str(e)[:120]), rp)
+        return
+    run.ask("pcaf %d %s %d %s" % (1 if centred else 0, common.fmat(chunks[0].tolist()), len(chunks) - 1,
+                                  " ".join("%d/%d %s" % (f.numerator, f.denominator, common.fmat(c.tolist()))
+                                           for f, c in zip(factors, chunks[1:]))),
+            "pcaf", inc, rp)
+
+
+def keep_case(run, ka, la, na, brows, f, eps, tag):
+    """`l = s~^2 / (n - 1); l = l[l > eps]; U[:len(l)]` with its threshold: axis-aligned input, so the squared singular
+    values of R are known exactly: U_a = e_0..e_{ka-1}, eigenvalues la, new rows b_j e_{ka+j} (uncentred)"""
+    import numpy as np
+    from menpo.math import ipca
+    ctx = run.ctx
+    if not run.with_model:
+        return
+    d = ka + len(brows)
+    U_a = np.eye(d)[:ka]
+    B = np.zeros((len(brows), d))
+    for j, b in enumerate(brows):
+        B[j, ka + j] = float(b)
+    nm1 = f * na + len(brows) - 1
+    s2 = sorted([f * f * (na - 1) * l for l in la] + [b * b for b in brows], reverse=True)
+    lex = [x / nm1 for x in s2]
+    eff = DEFAULT_EPS if eps is None else eps
+    if any(abs(float(x) - float(eff)) <= 1e-6 * float(eff) for x in lex):
+        return          # too close to the threshold for float arithmetic to decide as the reals do
+    rp = {"model": "ipca-keep", "n_a": na, "l_a": [str(x) for x in la], "rows": [str(b) for b in brows], "f": str(f),
+          "eps": str(eps)}
+    ctx.case(("keep", ka, tuple(la), na, tuple(brows), f, eps), nontrivial=True)
+    ctx.count("keep:%s" % tag)
+    kw = {} if eps is None else {"eps": float(eps)}
+    try:
+        U, l, m = ipca(B, U_a, np.array([float(x) for x in la]), na, m_a=None, f=float(f), **kw)
+    except Exception as e:
+        ctx.mismatch("ipca.keep", "ipca raised %s: %s" % (type(e).__name__, str(e)[:120]), rp)
+        return
+    inc = dict(l=np.array(l, dtype=float))
+    # rows returned must be the axes of the kept eigenvalues (up to sign), in the same order
+    q = lambda x: "%d/%d" % (F(x).numerator, F(x).denominator)
+    run.ask("keep %s %s %d %s" % (q(eff), q(nm1), len(s2), " ".join(q(x) for x in s2)),
+            "keep", inc, rp)
+    if U.shape[0] == len(l) and len(l) <= d:
+        G = U.dot(U.T)
+        if not arr_close(G, np.eye(len(l)), 1e-8):
+            ctx.mismatch("ipca.keep", "kept rows are not orthonormal", rp)
+
+
+DEFAULT_EPS = F(1, 10 ** 10)
 
 
 def gmrf_case(run, X, split, cfg, tag):
     ctx = run.ctx
-    kind, edges, nv, k, mode, sparse, bias, backing = cfg
+    kind, edges, nv, k, mode, sparse, bias, backing = cfg[:8]
+    variant = cfg[8] if len(cfg) > 8 else "plain"
     chunks = cut(X, split)
     rp = {"model": "GMRF", "graph": kind, "edges": edges, "n_vertices": nv, "n_features_per_vertex": k, "mode": mode,
-          "sparse": sparse, "bias": bias, "backing": backing, "split": list(split), "data": X.tolist()}
+          "sparse": sparse, "bias": bias, "backing": backing, "variant": variant, "split": list(split), "data": X.tolist()}
     ctx.case(("gmrf", X.tobytes(), split, repr(cfg)), nontrivial=len(split) >= 2,
              sample={kk: rp[kk] for kk in ("model", "graph", "edges", "n_features_per_vertex", "mode", "sparse", "bias",
                                            "backing", "split")})
     ctx.count("gmrf:%s:%s:%s:bias%d" % (kind, mode if edges else "-", "sparse" if sparse else "dense", bias))
     ctx.count("gmrf:%s" % tag)
     ctx.count("gmrf:backing:%s" % backing)
+    ctx.count("gmrf:input:%s" % variant)
     ctx.count("increments:%d" % (len(split) - 1))
-    inc = gmrf_oracle(ctx, chunks, cfg, rp)
-    if kind.startswith("twoway"):
-        # antiparallel edge pairs: how duplicated blocks are assembled (dense overwrite vs sparse sum) is C12's
-        # subject and outside the Lean assembly model; incremental = batch is decided by the oracle on the real code
-        ctx.count("gmrf:model-skipped:antiparallel-edges")
-        return
-    run.ask("gmrf %d %s %d %d %d %s %s" % (bias, "c" if mode == "concatenation" else "s", nv, k, len(edges),
-                                            " ".join("%d %d" % (a, b) for a, b in edges), wire_chunks(chunks)),
-            "gmrf", inc, rp)
+    inc, bat = gmrf_oracle(ctx, chunks, cfg, rp)
+    spec = "%d %s %d %d %d %s" % (bias, "c" if mode == "concatenation" else "s", nv, k, len(edges),
+                                  " ".join("%d %d" % (a, b) for a, b in edges))
+    if backing == "vector":
+        run.ask("gmrf %s %s" % (spec, wire_chunks(chunks)), "gmrf", inc, rp, sparse=sparse, bat=bat)
+    else:
+        run.ask("gmrfo %s %s" % (spec, wire_clouds(chunks, k)), "gmrf", inc, rp, sparse=sparse, bat=bat)
 
 
 def pca_dataset(rng, n, d, centred, split_for_guard=None):
@@ -474,25 +875,59 @@ def pca_dataset(rng, n, d, centred, split_for_guard=None):
     raise common.Infra("generator: no well-conditioned PCA data set found")
 
 
+ZERO_MEAN_X = [[1.0, 2.0], [-1.0, -2.0], [2.0, -1.0], [-2.0, 1.0], [3.0, 1.0], [5.0, 2.0], [1.0, 7.0]]
+ZERO_MEAN_Y = [[1.0, 2.0, 0.5], [3.0, -1.0, 1.5], [-4.0, -1.0, -2.0], [2.0, 2.0, 1.0], [0.0, 3.0, 4.0], [1.0, 1.0, -2.0]]
+RANK_DEF_Z = [[1.0, 0.0, 2.0], [3.0, 1.0, 0.0], [1.0, 0.0, 2.0], [2.0, 0.5, 1.0], [0.0, 4.0, 1.0], [0.0, 4.0, 1.0],
+              [5.0, 2.0, 2.0]]
+
+
 def directed_pca(run):
     """fixed cases that are part of the quantifier and that random data never hit"""
     import numpy as np
     # a centred model whose mean is exactly zero (DESIGN section 7 item 9), 2-D and 3-D, one and two increments
-    X = np.array([[1.0, 2.0], [-1.0, -2.0], [2.0, -1.0], [-2.0, 1.0], [3.0, 1.0], [5.0, 2.0], [1.0, 7.0]])
+    X = np.array(ZERO_MEAN_X)
     pca_case(run, X, (4, 3), True, "vector", "zero-mean-initial-batch")
     pca_case(run, X, (4, 1, 2), True, "vector", "zero-mean-initial-batch")
     pca_case(run, X, (4, 3), True, "pointcloud", "zero-mean-initial-batch")
     # the running mean becomes exactly zero after the first increment
-    Y = np.array([[1.0, 2.0, 0.5], [3.0, -1.0, 1.5], [-4.0, -1.0, -2.0], [2.0, 2.0, 1.0], [0.0, 3.0, 4.0], [1.0, 1.0, -2.0]])
+    Y = np.array(ZERO_MEAN_Y)
     pca_case(run, Y, (2, 1, 3), True, "vector", "zero-mean-after-increment")
     # the same data, uncentred: the zero test is the documented convention there
     pca_case(run, X, (4, 3), False, "vector", "zero-mean-uncentred")
     # duplicates / rank-deficient increments, single-row increments, an increment equal to the running mean
-    Z = np.array([[1.0, 0.0, 2.0], [3.0, 1.0, 0.0], [1.0, 0.0, 2.0], [2.0, 0.5, 1.0], [0.0, 4.0, 1.0], [0.0, 4.0, 1.0],
-                  [5.0, 2.0, 2.0]])
+    Z = np.array(RANK_DEF_Z)
     for split in ((2, 2, 3), (3, 1, 1, 1, 1), (2, 5), (6, 1)):
         for centred in (True, False):
             pca_case(run, Z, split, centred, "vector", "rank-deficient-increments")
+    # more new rows than unexplored dimensions, leading rows already inside the current eigenspace: [U_a; B~] cannot
+    # have orthonormal rows (the case the full-rank QR contract excludes; theorem ipca_rows_orthonormal covers it)
+    W = np.array([[1.0, 0.0, 0.0, 2.0], [0.0, 1.0, 0.0, 1.0], [2.0, -1.0, 0.0, 3.0], [1.0, 1.0, 0.0, 3.0],
+                  [0.0, 0.0, 1.0, 0.5], [1.0, 0.0, 0.0, 2.0], [3.0, 2.0, 1.0, 0.0], [0.5, 0.25, 2.0, 1.0]])
+    for split in ((2, 6), (3, 5), (2, 2, 4), (4, 4)):
+        for centred in (True, False):
+            pca_case(run, W, split, centred, "vector", "residual-rank-deficient-over-full")
+            ipca_case(run, W, split, centred, True if centred else None, "residual-rank-deficient-over-full")
+    # menpo.math.ipca itself: centre inferred from the mean (None) on zero-mean histories, and given explicitly
+    ipca_case(run, X, (4, 3), True, None, "zero-mean-initial-batch")
+    ipca_case(run, X, (4, 3), True, True, "zero-mean-initial-batch")
+    ipca_case(run, Y, (2, 1, 3), True, None, "zero-mean-after-increment")
+    ipca_case(run, Y, (2, 1, 3), True, True, "zero-mean-after-increment")
+    ipca_case(run, X, (4, 3), False, None, "zero-mean-uncentred")
+    ipca_case(run, X, (4, 3), False, False, "zero-mean-uncentred")
+
+
+def directed_keep(run):
+    """the eps discard with its threshold, default and explicit, with and without forgetting"""
+    h = F(1, 2)
+    keep_case(run, 2, [F(3), F(1, 2)], 5, [F(2), F(1, 4)], F(1), None, "default-eps")
+    keep_case(run, 2, [F(3), F(1, 2)], 5, [F(2), F(1, 1024)], F(1), F(1, 100), "explicit-eps-drops-new-row")
+    keep_case(run, 2, [F(3), F(1, 64)], 5, [F(2), F(1, 4)], F(1), F(1, 10), "explicit-eps-drops-old-component")
+    keep_case(run, 3, [F(4), F(1), F(1, 256)], 9, [F(3)], F(1), F(1, 8), "explicit-eps")
+    keep_case(run, 2, [F(3), F(1, 2)], 5, [F(2), F(1, 4)], h, F(1, 8), "forgetting-and-eps")
+    keep_case(run, 1, [F(2)], 3, [F(1, 1024), F(1)], F(1), None, "default-eps-tiny-row-kept")
+    keep_case(run, 1, [F(2)], 3, [F(1, 1024), F(1)], F(1), F(1, 10 ** 6), "explicit-eps-tiny-row-dropped")
+    keep_case(run, 1, [F(2)], 3, [F(1, 1048576), F(1)], F(1), None, "default-eps-tiny-row-dropped")
+    keep_case(run, 2, [F(3), F(1, 2)], 5, [F(0), F(1, 4)], F(1), None, "zero-row")
 
 
 def explore_pca(run, scale):
@@ -502,9 +937,13 @@ def explore_pca(run, scale):
         for centred in (True, False):
             for rep in range(1 if scale == 1 else 2):
                 X = pca_dataset(rng, n, d, centred)
-                backing = "pointcloud" if d % 2 == 0 and rng.random() < 0.5 else "vector"
+                backing = rng.choice(["pointcloud", "pointcloud-iter"]) if d % 2 == 0 and rng.random() < 0.5 else "vector"
                 for split in compositions(n, 2):
                     pca_case(run, X, split, centred, backing, "every-composition-n%d" % n)
+                if n <= 6:
+                    # the public function on its own, every composition
+                    for split in compositions(n, 2):
+                        ipca_case(run, X, split, centred, rng.choice([None, centred]), "every-composition-n%d" % n)
     if scale > 1:
         X = pca_dataset(rng, 9, 4, True)
         for split in compositions(9, 2):
@@ -517,16 +956,40 @@ def explore_pca(run, scale):
         backing = "pointcloud" if d % 2 == 0 and rng.random() < 0.3 else "vector"
         for _ in range(2):
             pca_case(run, X, random_composition(rng, n, 2), centred, backing, "random-composition")
+        ipca_case(run, X, random_composition(rng, n, 2), centred, rng.choice([None, centred]), "random-composition")
+    # forgetting factors (as coded; correspondence only)
+    for _ in range(30 * scale):
+        n, d = rng.randint(5, 9), rng.randint(2, 6)
+        centred = rng.random() < 0.6
+        X = pca_dataset(rng, n, d, centred)
+        split = random_composition(rng, n, 2)
+        while len(split) > 4:
+            split = random_composition(rng, n, 2)
+        factors = [rng.choice([F(1, 2), F(3, 4), F(7, 8), F(1), F(1, 4)]) for _ in split[1:]]
+        backing = "pointcloud" if d % 2 == 0 and rng.random() < 0.3 else "vector"
+        forget_case(run, X, split, centred, backing, factors, "random-factors")
 
 
 def gmrf_configs():
     out = []
-    for kind in ("edgeless", "chain", "cycle", "tree", "Tree", "twoway-chain", "twoway-cycle"):
+    for kind in ("edgeless", "chain", "cycle", "tree", "Tree", "twoway-chain", "twoway-cycle", "chain-isolated"):
         for mode in (("concatenation",) if kind == "edgeless" else ("concatenation", "subtraction")):
             for sparse in (True, False):
                 for bias in (0, 1):
                     out.append((kind, mode, sparse, bias))
     return out
+
+
+def gmrf_dataset(rng, n, n0, nv, k, edges, mode, bias, integer):
+    import numpy as np
+    for _ in range(300):
+        if integer:
+            X = np.array([[float(rng.randint(-12, 12)) for _ in range(nv * k)] for _ in range(n)])
+        else:
+            X = dyadic_matrix(rng, n, nv * k, 16, 2)
+        if gmrf_data_ok(X, tuple([n0] + [1] * (n - n0)), edges, mode, k, nv, bias):
+            return X
+    raise common.Infra("generator: no well-conditioned GMRF data set found")
 
 
 def explore_gmrf(run, scale):
@@ -543,15 +1006,14 @@ def explore_gmrf(run, scale):
             p = k if (not edges or mode == "subtraction") else 2 * k
             n0 = p + 2
             backing = "pointcloud" if k >= 2 and rng.random() < 0.4 else "vector"
-            cfg = (kind, edges, nv, k, mode, sparse, bias, backing)
+            if backing == "vector":
+                variant = rng.choice(["plain", "plain", "int", "list"])
+            else:
+                variant = rng.choice(["plain", "iter"])
+            cfg = (kind, edges, nv, k, mode, sparse, bias, backing, variant)
             extra = 3 if (rnd % 2 == 0) else 4
             n = n0 + extra
-            for _ in range(200):
-                X = dyadic_matrix(rng, n, nv * k, 16, 2)
-                if gmrf_data_ok(X, tuple([n0] + [1] * extra), edges, mode, k, nv, bias):
-                    break
-            else:
-                raise common.Infra("generator: no well-conditioned GMRF data set found")
+            X = gmrf_dataset(rng, n, n0, nv, k, edges, mode, bias, variant == "int")
             splits = compositions(n, n0)
             if scale == 1 and len(splits) > 7:
                 splits = rng.sample(splits, 7)
@@ -559,24 +1021,28 @@ def explore_gmrf(run, scale):
                 gmrf_case(run, X, split, cfg, "every-composition" if scale > 1 else "sampled-compositions")
             # a longer random history
             n2 = n0 + rng.randint(5, 9)
-            for _ in range(200):
-                X2 = dyadic_matrix(rng, n2, nv * k, 16, 2)
-                if gmrf_data_ok(X2, tuple([n0] + [1] * (n2 - n0)), edges, mode, k, nv, bias):
-                    break
-            else:
-                raise common.Infra("generator: no well-conditioned GMRF data set found")
+            X2 = gmrf_dataset(rng, n2, n0, nv, k, edges, mode, bias, variant == "int")
             gmrf_case(run, X2, random_composition(rng, n2, n0), cfg, "random-composition")
 
 
 def case_from_replay(run, rp, tag):
     import numpy as np
+    if rp.get("model") == "ipca-keep":
+        eps = None if rp["eps"] in (None, "None") else F(rp["eps"])
+        keep_case(run, len(rp["l_a"]), [F(x) for x in rp["l_a"]], int(rp["n_a"]), [F(x) for x in rp["rows"]], F(rp["f"]),
+                  eps, tag)
+        return
     X = np.array(rp["data"], dtype=float)
     split = tuple(rp["split"])
     if rp.get("model") == "PCA":
         pca_case(run, X, split, bool(rp["centred"]), rp.get("backing", "vector"), tag)
+    elif rp.get("model") == "ipca":
+        ipca_case(run, X, split, bool(rp["centred"]), rp.get("centre_arg"), tag)
+    elif rp.get("model") == "PCA-forget":
+        forget_case(run, X, split, bool(rp["centred"]), rp.get("backing", "vector"), [F(f) for f in rp["factors"]], tag)
     else:
         cfg = (rp["graph"], [list(e) for e in rp["edges"]], rp["n_vertices"], rp["n_features_per_vertex"], rp["mode"],
-               bool(rp["sparse"]), int(rp["bias"]), rp.get("backing", "vector"))
+               bool(rp["sparse"]), int(rp["bias"]), rp.get("backing", "vector"), rp.get("variant", "plain"))
         gmrf_case(run, X, split, cfg, tag)
 
 
@@ -588,9 +1054,45 @@ def corpus(run):
         case_from_replay(run, json.load(open(path))["replay"], "corpus-replay")
 
 
+def directed_mixed_dtype(run):
+    """object-level models whose first sample is an integer-typed PointCloud followed by float samples.  as_matrix
+    allocates the data matrix with the dtype of the first sample and silently truncates the later ones, differently
+    for the batch model (everything truncated) and the incremental one (only chunks whose first sample is
+    integer-typed): reported with a patch (notes/fixes/C11-as-matrix-template-dtype.diff).  The cases run as soon as
+    as_matrix widens; until then they are skipped and counted."""
+    import numpy as np
+    ctx = run.ctx
+    if not as_matrix_widens():
+        ctx.count("skipped:as_matrix-truncates-to-first-sample-dtype")
+        ctx.notes["as_matrix_template_dtype"] = (
+            "menpo.math.as_matrix allocates the data matrix with the dtype of the first sample: a GMRFModel whose first "
+            "sample is an integer-typed PointCloud truncates the float samples that follow (batch: all of them; "
+            "incremental: only those of the first chunk), so incremental != batch on such input; proposed repair "
+            "notes/fixes/C11-as-matrix-template-dtype.diff; the mixed-dtype cases are skipped until it is applied")
+        return
+    rng = common.random.Random(1100 + ctx.seed)
+    for kind, mode, sparse in (("chain", "concatenation", True), ("cycle", "subtraction", False), ("edgeless", "concatenation", True)):
+        nv, k = 3, 2
+        edges = [[int(a), int(b)] for a, b in build_graph(kind, make_graph(rng, kind, nv), nv).edges.tolist()]
+        p = k if (not edges or mode == "subtraction") else 2 * k
+        n0 = p + 2
+        for _ in range(300):
+            X = dyadic_matrix(rng, n0 + 3, nv * k, 16, 2)
+            X[0] = np.round(X[0])
+            if gmrf_data_ok(X, tuple([n0] + [1] * 3), edges, mode, k, nv, 0):
+                break
+        else:
+            raise common.Infra("generator: no well-conditioned GMRF data set found")
+        cfg = (kind, edges, nv, k, mode, sparse, 0, "pointcloud", "int-template")
+        for split in ((n0, 3), (n0 + 1, 1, 1)):
+            gmrf_case(run, X, split, cfg, "integer-typed-first-sample")
+
+
 def explore(run, scale):
     corpus(run)
     directed_pca(run)
+    directed_keep(run)
+    directed_mixed_dtype(run)
     explore_pca(run, scale)
     explore_gmrf(run, scale)
 
@@ -605,8 +1107,16 @@ def search(ctx):
 
 
 def run(ctx):
-    common.prepare_lean(ctx, PROP, IMPORTS, THEOREMS)
-    ctx.trusted += ["contract parameters: np.linalg.qr/svd/inv, np.sqrt, np.cov, np.mean (certificate-checked per case)"]
+    gen_ok = generated(ctx)
+    if gen_ok:
+        common.prepare_lean(ctx, PROP, IMPORTS + [GEN_IMPORT], THEOREMS + GEN_THEOREMS,
+                            targets=["MenpoModel.Props.C11", "MenpoModel.Drive.C11", GEN_IMPORT])
+    else:
+        # a regenerated obligation no longer checks: audit what still builds, then let the oracle search
+        common.prepare_lean(ctx, PROP, IMPORTS, THEOREMS)
+    ctx.trusted += ["contract parameters: np.linalg.qr/svd/inv, np.sqrt, np.cov, np.mean (certificate-checked per case); "
+                    "scipy.sparse.bsr_matrix sums duplicate blocks (checked by the correspondence on two-way graphs)",
+                    "table extraction: inspect.signature / ast of PCAVectorModel.increment / wrapped GMRF routines"]
     r = Run(ctx)
     explore(r, ctx.n(1, 12))
     r.settle()
@@ -618,7 +1128,7 @@ def replay(ctx, path):
     data = json.load(open(path))
     rp = data.get("replay") or (data.get("broken_correspondence") or [{}])[0].get("case") or {}
     print(json.dumps({k: v for k, v in data.items() if k != "replay"}, indent=1)[:1500])
-    if not rp.get("data"):
+    if not (rp.get("data") or rp.get("model") == "ipca-keep"):
         print("no recorded case in this replay file; re-running the quick exploration with seed %r" % data.get("seed"))
         return run(common.Ctx(PROP, "quick", int(data.get("seed", 0))))
     common.prepare_lean(ctx, PROP, IMPORTS, THEOREMS)
@@ -626,5 +1136,5 @@ def replay(ctx, path):
     case_from_replay(r, rp, "replay")
     r.settle()
     print("replayed case: %s split=%s -> %d oracle failure(s), %d model mismatch(es)" % (
-        rp.get("model"), list(rp["split"]), len(ctx.failures), len(ctx.mismatches)))
+        rp.get("model"), list(rp.get("split", [])), len(ctx.failures), len(ctx.mismatches)))
     return ctx.finish(None)
